@@ -458,10 +458,10 @@ Proof.
     + intros x Hx. cbn. unfold upd. eqb_cases x u; [lia | reflexivity].
     + intros x Hlt. left. split; [cbn; lia|]. split; [auto|].
       rewrite enq_with_sub by assumption. discriminate.
-    + intros o. rewrite Hwn. cbn [rc staged stage set_staged rc_inc set_rc sref].
+    + intros o. rewrite Hwn. cbn [rc staged stage set_staged rc_inc set_rc sref add_log].
       rewrite hsum_cons, upd_ind. unfold hn at 1. cbn [href]. rewrite ind_sym.
-      change (Qc (stage (rc_inc g u) (HelperBody u (tw_of g u))) o) with (Qc g o).
-      change (Ht (stage (rc_inc g u) (HelperBody u (tw_of g u))) o) with (Ht g o).
+      change (Qc (add_log (stage (rc_inc g u) (HelperBody u (tw_of g u))) (EvHelp (gid g u) (tw_of g u))) o) with (Qc g o).
+      change (Ht (add_log (stage (rc_inc g u) (HelperBody u (tw_of g u))) (EvHelp (gid g u) (tw_of g u))) o) with (Ht g o).
       eqb_cases o u; lia.
   - (* SCas *)
     cbn in Hs. destruct Hs as [Hun Hprev].
